@@ -94,10 +94,9 @@ def run(tier, seed):
     root = runner.scratch_dir()
     try:
         runner.build_programs(ok, root)
-        reports, st, cases = mc.explore(ok, None, post=1, budget=20000 if quick else 400000, timeout=400 if quick else 3000)
+        reports, st, cases = mc.explore(ok, None, post=1, budget=20000 if quick else 400000, timeout=1600 if quick else 9000)
         for e in st['errors']:
-            if 'timeout' not in str(e):
-                chk.machinery_error('TLC(MachineMC): ' + str(e)[:1500])
+            chk.machinery_error('TLC(MachineMC): ' + str(e)[:1500])
         kinds = collections.Counter()
         confirmed = 0
         for p, reps in zip(ok, reports):
@@ -133,7 +132,7 @@ def run(tier, seed):
                               {'program': p.name, 'args': p.args, 'source': p.src, 'input_hex': data.hex()}, fid)
         # reject side
         pairs = [(p, a) for p, a in zip(progs[:len(items)], asts) if p.ok]
-        creports, cst, ccases = conform.explore(pairs, maxlen=8 if quick else 12, timeout=300 if quick else 2400)
+        creports, cst, ccases = conform.explore(pairs, maxlen=8 if quick else 12, timeout=1500 if quick else 9000)
         zp = 0
         for (p, a), reps in zip(pairs, creports):
             z = [r for r in reps if r['kind'] == 'ZEROPROGRESS']
